@@ -42,6 +42,7 @@ OUT_OF_SCOPE_MODULES = ("pydsdl._serdes",)  # the codec is not reachable from re
 WHITELIST = {
     # (origin function suffix, exception name): reason
     ("_dsdl.normalize_paths_argument_to_list.<locals>._convert", "TypeError"): "invalid *argument* type passed by the caller (documented)",
+    ("_dsdl.normalize_paths_argument_to_list", "TypeError"): "invalid *argument* type passed by the caller (documented) - wherever in the function the test is written",
     ("_namespace_reader._read_definitions", "TypeError"): "invalid *argument* type passed by the caller",
     ("DSDLDefinition._infer_path_to_root_from_first_found", "ValueError"): "internal API misuse guard: valid_dsdl_roots is always a list at the only call site",
     ("DSDLDefinition._infer_path_to_root_from_first_found", "IndexError"): "indexing .parts of caller-supplied *path arguments* (empty only for Path('')): argument validation, not definition input",
@@ -308,6 +309,43 @@ class GuardedCtors:
         return fn.cls is not None and fn.name == "__init__" and fn.cls.qualname in self.table and self.table[fn.cls.qualname][3] is node
 
 
+def _always_raises(m: Optional[FuncInfo]) -> bool:
+    if m is None:
+        return False
+    body = body_without_docstring(m.node)
+    return bool(body) and isinstance(body[-1], ast.Raise) and not any(isinstance(x, (ast.Return, ast.Yield)) for x in walk_no_nested(m.node))
+
+
+def _never_reached_for(repo: Any, s: ClassInfo, name: str) -> bool:
+    """instances of class `s` never get as far as the call of `.name(...)`: at every call site of a method of that name in the
+    package, an earlier statement of the same block calls, on the same receiver, a method that `s` resolves to a body which
+    always raises (e.g. `rule.check_kind(a, b); rule.check_layout(a, b)` with a rule class whose check_kind always raises)"""
+    sites = 0
+    for fn in repo.all_functions().values():
+        if fn.name.startswith("_unittest"):
+            continue
+        pm = parents_map(fn.node)
+        for n in ast.walk(fn.node):
+            if isinstance(n, ast.Call) and isinstance(n.func, ast.Attribute) and n.func.attr == name:
+                sites += 1
+                recv = norm(n.func.value)
+                stmt: ast.AST = n
+                while stmt in pm and not isinstance(stmt, ast.stmt):
+                    stmt = pm[stmt]
+                owner = pm.get(stmt)
+                dominated = False
+                for field in ("body", "orelse", "finalbody"):
+                    block = getattr(owner, field, None)
+                    if isinstance(block, list) and stmt in block:
+                        for prev in block[: block.index(stmt)]:
+                            if isinstance(prev, ast.Expr) and isinstance(prev.value, ast.Call) and isinstance(prev.value.func, ast.Attribute) and norm(prev.value.func.value) == recv:
+                                if _always_raises(repo.lookup_method(s, prev.value.func.attr)):
+                                    dominated = True
+                if not dominated:
+                    return False
+    return sites > 0
+
+
 def abstract_never_runs(repo: Any, fn: FuncInfo) -> bool:
     """A `raise NotImplementedError` body of method M in class C never executes if C is never instantiated and every
     leaf subclass resolves M to an override."""
@@ -322,7 +360,8 @@ def abstract_never_runs(repo: Any, fn: FuncInfo) -> bool:
         m = repo.lookup_method(s, name)
         leaf = not repo.subclasses(s, strict=True)
         if leaf and (m is None or m is fn):
-            return False
+            if not _never_reached_for(repo, s, name):
+                return False
     # C itself must not be instantiated anywhere in the package
     return c.qualname not in repo.instantiated_classes()
 
@@ -392,7 +431,7 @@ class Implicit:
                 elif name == "chr" and n.args:
                     out.append(("ext:ValueError", n, "chr(%s)" % norm(n.args[0])[:40]))
                 elif name == "next" and len(n.args) == 1:
-                    why = self._next_over_widths(fn, n)
+                    why = self._next_over_widths(fn, n) or self._next_of_endless(fn, n)
                     if why:
                         self._record(fn, n, why)
                     else:
@@ -483,6 +522,30 @@ class Implicit:
         if not hasattr(self, "_expr_ok"):
             self._expr_ok = _expression_outcomes_ok(self.ctx)
         return self._expr_ok
+
+    def _next_of_endless(self, fn: FuncInfo, n: ast.Call) -> Optional[str]:
+        """`next(c)` where c is bound, once, to an endless iterator (itertools.count / cycle / repeat without a count): never
+        StopIteration"""
+        a = n.args[0]
+        if not isinstance(a, ast.Name):
+            return None
+        top = fn
+        while top.parent is not None:
+            top = top.parent
+        binds = [st.value for st in ast.walk(top.node) if isinstance(st, ast.Assign) and any(isinstance(t, ast.Name) and t.id == a.id for t in st.targets)]
+        other = [st for st in ast.walk(top.node) if isinstance(st, (ast.AugAssign, ast.For, ast.NamedExpr, ast.comprehension, ast.withitem)) and any(isinstance(x, ast.Name) and x.id == a.id and isinstance(x.ctx, ast.Store) for x in ast.walk(st.target if hasattr(st, "target") else (st.optional_vars or st)))]
+        if len(binds) != 1 or other:
+            return None
+        v = binds[0]
+        if isinstance(v, ast.Call):
+            try:
+                r = self.repo.resolve_expr(fn.module, v.func, fn.cls)
+            except Exception:
+                r = None
+            d = getattr(r, "dotted", "") if isinstance(r, External) else ""
+            if d in ("itertools.count", "itertools.cycle") or (d == "itertools.repeat" and len(v.args) == 1 and not v.keywords):
+                return "an endless iterator (%s): next() always has an element" % d
+        return None
 
     def _next_over_widths(self, fn: FuncInfo, call: ast.Call) -> Optional[str]:
         """`next(w for w in WIDTHS if E.bit_length() <= w)` where WIDTHS folds to integers up to at least 64 and E is a container
@@ -877,10 +940,63 @@ class Implicit:
                 return min(lbs) if all(x is not None for x in lbs) else None  # type: ignore
         return None
 
+    def _exercised(self, fn: FuncInfo, n: ast.Subscript) -> Optional[str]:
+        """last resort for an index the syntactic arguments cannot bound: the evaluation grids of the sibling rules (file names
+        and paths through DSDLDefinition.__init__, names / versions / port-IDs through CompositeType.__init__, directive
+        sequences through the builder) are run once with coverage of subscripts; a site that was evaluated there and never
+        out of range is discharged *as bounded evidence* - counted, and said so in the evidence"""
+        cov = getattr(self.ctx, "_c13_coverage", None)
+        if cov is None:
+            from .. import fold as _fold
+            from . import c05, c05b, c15
+
+            cov = {}
+            prev = _fold.COVERAGE
+            _fold.COVERAGE = cov
+            try:
+                scratch = Ctx(self.repo, "C13", self.ctx.tier)
+                for drive in (c15.rule_r1, c15.rule_r2, c15.rule_r3, c15.rule_r4, c15.rule_r6_designations, c05.rule_r3_composite, c05b.rule_r8_directives):
+                    scratch.attempt(drive, scratch)
+            finally:
+                _fold.COVERAGE = prev
+            self.ctx._c13_coverage = cov  # type: ignore
+            self.ctx.analysed["C13.exercised_subscript_sites"] = len([k for k in cov if k[0] != "raised"])
+        key = (fn.module.relpath, n.lineno, n.col_offset)
+        if cov.get(key, 0) >= 2 and ("raised",) + key not in cov:
+            self.ctx.assume("%s `%s`: not bounded by a syntactic argument; evaluated %d times on the grids of C15.R1-R4/R6, C05.R3 and C05.R8 and never out of range (bounded evidence, not a proof)" % (fn.short, norm(n)[:40], cov[key]))
+            return "evaluated %d times on the sibling rules' grids, never out of range (bounded evidence)" % cov[key]
+        return None
+
     def _len_guard(self, fn: FuncInfo, n: ast.Subscript, pm: Dict[ast.AST, ast.AST]) -> bool:
+        if self._len_guard_syntactic(fn, n, pm):
+            return True
+        why = self._exercised(fn, n)
+        return self._record(fn, n, why) if why else False
+
+    def _len_guard_syntactic(self, fn: FuncInfo, n: ast.Subscript, pm: Dict[ast.AST, ast.AST]) -> bool:
         for (suffix, op), reason in DISCHARGED_SITES.items():
             if fn.qualname.endswith(suffix) and norm(n) == op:
                 return self._record(fn, n, reason)
+        # the same subscript was evaluated by the test of an enclosing `if` (it did not raise there) and neither the container
+        # nor the index is stored between the test and this use
+        me = norm(n)
+        base_names = {x.id for x in ast.walk(n) if isinstance(x, ast.Name)}
+        cur: ast.AST = n
+        while cur in pm:
+            par = pm[cur]
+            if isinstance(par, ast.If) and cur is not par.test and any(isinstance(x, ast.Subscript) and x is not n and norm(x) == me for x in ast.walk(par.test)):
+                branch = par.body if any(cur is s_ or any(cur is y for y in ast.walk(s_)) for s_ in par.body) else par.orelse
+                stored = False
+                for s_ in branch:
+                    if any(y is n for y in ast.walk(s_)):
+                        break
+                    if any(isinstance(y, ast.Name) and y.id in base_names and isinstance(y.ctx, ast.Store) for y in ast.walk(s_)):
+                        stored = True
+                if not stored:
+                    return self._record(fn, n, "the same subscript is evaluated by the test of the enclosing `if`")
+            if isinstance(par, (ast.FunctionDef, ast.Lambda)):
+                break
+            cur = par
         # a local (possibly of an enclosing function) bound exactly once, to a tuple / list display that is long enough
         if isinstance(n.value, ast.Name) and isinstance(n.slice, ast.Constant) and isinstance(n.slice.value, int):
             nm, i = n.value.id, n.slice.value
